@@ -301,6 +301,7 @@ pub fn gen_prog(a: &Args, out: &mut Out, run0: u64, nruns: u64, strict_pct: u32,
         m.load(out, &obj);
         if pi == 1 { m.srdef(out, 0x300C, Some(1), &[]); }
         if pi == 2 { m.srdef(out, 0x300A, None, &[1, 2]); }
+        if pi == 5 { m.srdef(out, 0x300F, None, &[7, 0]); m.srdef(out, 0x3011, None, &[7]); }
         if chance(&mut rng, 70) {
             let n = rng.random_range(0..5);
             let mut ks: Vec<u8> = (0..n).map(|_| rng.random_range(1..=255u8)).collect();
@@ -584,6 +585,132 @@ pub fn gen_edge(a: &Args, out: &mut Out, run0: u64, stride: u16) -> u64 {
     run - run0
 }
 
+// ---------------------------------------------------------------------------
+/// Boundary-value scenarios: ALU results at x7FFF/x8000/0/xFFFF, effective addresses that wrap
+/// around xFFFF/x0000 (supervisor or privilege checks off), MMIO stores of arbitrary values to
+/// every device and internal-register port, RTI popping unusual PSR words, interrupts on the
+/// vectors that alias the exception vectors, JSR/TRAP at the last address.
+pub fn gen_bound(a: &Args, out: &mut Out, run0: u64, reps: u64) -> u64 {
+    let mut rng = StdRng::seed_from_u64(a.seed.wrapping_mul(0x9E3779B97F4A7C15) ^ 0x7171 ^ run0);
+    let mut run = run0;
+    let edge: [u16; 8] = [0x7FFF, 0x8000, 0x0000, 0xFFFF, 0x0001, 0x7FFE, 0x8001, 0xFFFE];
+    for _ in 0..reps {
+        for case in 0..10u32 {
+            for sub in 0..8u32 {
+                let sup = case != 4 || sub % 2 == 0;
+                let flags = SimFlags {
+                    strict: chance(&mut rng, 20), use_real_traps: chance(&mut rng, 50),
+                    machine_init: MachineInitStrategy::Known { value: pick(&mut rng, &[0u16, 0xFFFF]) },
+                    debug_frames: chance(&mut rng, 50), ignore_privilege: chance(&mut rng, 25),
+                };
+                let mut m = M::new(run, flags, out); run += 1;
+                let psr = (if sup { 0 } else { 0x8000 }) | (rng.random_range(0..8u16) << 8) | pick(&mut rng, &[1u16, 2, 4]);
+                m.set_psr(out, psr);
+                let pc: u16 = if sup { pick(&mut rng, &[0x1000u16, 0x0300, 0x3000, 0x2FFE]) } else { 0x3000 + rng.random_range(0..0x100u16) };
+                let mut pokes: Vec<(u16, Word)> = vec![];
+                let mut pcs = pc;
+                match case {
+                    0 => { // ADD/AND/NOT with results at the sign boundaries
+                        let want = edge[sub as usize];
+                        let x: u16 = rng.random();
+                        m.set_reg(out, 1, word(x, 0xFFFF));
+                        m.set_reg(out, 2, word(want.wrapping_sub(x), 0xFFFF));
+                        m.set_reg(out, 3, word(want, 0xFFFF));
+                        m.set_reg(out, 4, word(!want, 0xFFFF));
+                        pokes.push((pc, word(0x1042, 0xFFFF)));           // ADD R0, R1, R2
+                        pokes.push((pc + 1, word(0x5AC3, 0xFFFF)));       // AND R5, R3, R3
+                        pokes.push((pc + 2, word(0x9D3F, 0xFFFF)));       // NOT R6, R4
+                        pokes.push((pc + 3, word(0x16FF, 0xFFFF)));       // ADD R3, R3, #-1
+                        pokes.push((pc + 4, word(0x16E1, 0xFFFF)));       // ADD R3, R3, #1
+                        pokes.push((pc + 5, word(0x0E01, 0xFFFF)));       // BRnzp +1
+                    }
+                    1 => { // loads of boundary values: LD, LDR, LDI set the condition codes
+                        let want = edge[sub as usize];
+                        pokes.push((pc, word(0x2004, 0xFFFF)));           // LD R0, +4
+                        pokes.push((pc + 1, word(0x6240, 0xFFFF)));       // LDR R1, R1, #0
+                        pokes.push((pc + 2, word(0xA403, 0xFFFF)));       // LDI R2, +3
+                        pokes.push((pc + 3, word(0x0401, 0xFFFF)));       // BRz +1
+                        pokes.push((pc + 5, word(want, 0xFFFF)));
+                        pokes.push((pc + 6, word(pc + 5, 0xFFFF)));
+                        m.set_reg(out, 1, word(pc + 5, 0xFFFF));
+                    }
+                    2 | 3 => { // LDR / STR whose base + offset wraps around the address space
+                        let off: i16 = pick(&mut rng, &[-1i16, -5, -32, 1, 2, 31]);
+                        let base: u16 = if off < 0 { rng.random_range(0..(-off) as u16) } else { 0xFFFFu16 - rng.random_range(0..off as u16) };
+                        m.set_reg(out, 2, word(base, 0xFFFF));
+                        m.set_reg(out, 3, word(rng.random(), 0xFFFF));
+                        let op = if case == 2 { 0x6000 } else { 0x7000 };
+                        pokes.push((pc, word(op | (3 << 9) | (2 << 6) | ((off as u16) & 0x3F), 0xFFFF)));
+                        pokes.push((base.wrapping_add(off as u16), word(0x1234, 0xFFFF)));
+                    }
+                    4 => { // PC-relative addressing that wraps: code at the very top / bottom of memory
+                        pcs = pick(&mut rng, &[0xFFFEu16, 0xFFFF, 0x0000, 0x0001]);
+                        let off: u16 = pick(&mut rng, &[0x1FFu16, 0x1FE, 0x001, 0x002, 0x100, 0x0FF]);
+                        let op = pick(&mut rng, &[0x2000u16, 0x3000, 0xA000, 0xB000, 0xE000, 0x0E00, 0x4800]);
+                        pokes.push((pcs, word(op | (if op == 0x4800 { off & 0x7FF } else { off }), 0xFFFF)));
+                    }
+                    5 => { // MMIO stores of arbitrary values (STI) and loads back (LDI)
+                        let port = pick(&mut rng, &[0xFE00u16, 0xFE02, 0xFE04, 0xFE06, 0xFFFC, 0xFFFE, 0xFE20, 0xFE22]);
+                        let val: u16 = pick(&mut rng, &[0x8000u16, 0xC000, 0x4000, 0xBFFF, 0x7FFF, 0xFFFF, 0x0000, 0x8007, 0x0700, 0x8300]) ^ (rng.random::<u16>() & 0x0038);
+                        m.mmap(out, 0xFE20, InternalRegister::SavedSP);
+                        m.mmap(out, 0xFE22, InternalRegister::PC);
+                        m.keys(out, &[b'z']);
+                        m.set_reg(out, 1, word(val, 0xFFFF));
+                        pokes.push((pc, word(0xB203, 0xFFFF)));           // STI R1, +3
+                        pokes.push((pc + 1, word(0xA402, 0xFFFF)));       // LDI R2, +2
+                        pokes.push((pc + 2, word(0x1021, 0xFFFF)));
+                        pokes.push((pc + 3, word(0x1021, 0xFFFF)));
+                        pokes.push((pc + 4, word(port, 0xFFFF)));
+                    }
+                    6 => { // RTI popping unusual PSR words
+                        let sp: u16 = 0x2F00 + rng.random_range(0..0x40u16);
+                        let newpsr: u16 = pick(&mut rng, &[0x8010u16, 0x8000, 0x0007, 0x8003, 0xFFFF, 0x0000, 0x8702, 0x0F02, 0x8006]);
+                        m.set_reg(out, 6, word(sp, 0xFFFF));
+                        pokes.push((sp, word(0x3100, 0xFFFF)));
+                        pokes.push((sp + 1, word(newpsr, 0xFFFF)));
+                        pokes.push((pc, word(0x8000, 0xFFFF)));
+                        pokes.push((0x3100, word(0x0601, 0xFFFF)));       // BRzp +1
+                        pokes.push((0x3101, word(0x0801, 0xFFFF)));       // BRn +1
+                        pokes.push((0x3102, word(0x1021, 0xFFFF)));
+                        pokes.push((0x3103, word(0x1021, 0xFFFF)));
+                    }
+                    7 => { // interrupts whose vectors alias the exception vectors, or any vector
+                        let s1 = m.add_intfn(out);
+                        let vect: u8 = pick(&mut rng, &[0x00u8, 0x01, 0x02, 0x25, 0x03, 0x80, 0xFF]);
+                        m.set_int(s1, IntCmd { k: 1, vect, prio: rng.random_range(0..9u8) });
+                        m.set_reg(out, 6, word(pick(&mut rng, &[0x2F00u16, 0x0001, 0x0000, 0x3000]), 0xFFFF));
+                        pokes.push((pc, word(0x1021, 0xFFFF)));
+                        pokes.push((pc + 1, word(0x1021, 0xFFFF)));
+                    }
+                    8 => { // stack pointer at the bottom of memory when a trap / exception is entered
+                        m.set_reg(out, 6, word(pick(&mut rng, &[0x0000u16, 0x0001, 0x0002, 0xFFFF]), 0xFFFF));
+                        if !sup { m.mmap(out, 0xFE20, InternalRegister::SavedSP); m.write_mem(out, 0xFE20, word(pick(&mut rng, &[0u16, 1, 2]), 0xFFFF), MemAccessCtx::omnipotent()); }
+                        pokes.push((pc, word(pick(&mut rng, &[0xF021u16, 0xF030, 0xD000, 0x8000]), 0xFFFF)));
+                    }
+                    _ => { // JSR / JSRR / TRAP / BR placed at the last address, RET to x0000
+                        pcs = 0xFFFF;
+                        pokes.push((0xFFFF, word(pick(&mut rng, &[0x4801u16, 0x4080, 0xF021, 0x0E00, 0xC1C0, 0x1021]), 0xFFFF)));
+                        pokes.push((0x0000, word(0x1021, 0xFFFF)));
+                        m.set_reg(out, 2, word(0x0000, 0xFFFF));
+                        m.set_reg(out, 7, word(0x0000, 0xFFFF));
+                        m.set_reg(out, 6, word(0x2F00, 0xFFFF));
+                    }
+                }
+                m.set_mems(out, &pokes);
+                m.set_pc(out, pcs);
+                let nsteps = if case == 7 || case == 0 { 6 } else { 4 };
+                for _ in 0..nsteps {
+                    if m.step(out, false, false) == "panic" { break; }
+                    if case == 9 || case == 4 { m.prefetch_pc(out); }
+                }
+                m.prefetch_pc(out);
+                m.end(out);
+            }
+        }
+    }
+    run - run0
+}
+
 pub fn emit_machine(a: &Args, out: &mut Out) {
     M::emit_os(out);
     let kind = a.get_str("kind", "all").to_string();
@@ -600,6 +727,7 @@ pub fn emit_machine(a: &Args, out: &mut Out) {
     if kind == "trapmode" { crate::scen3::gen_trapmode(a, out); return; }
     if kind == "locks" { crate::scen3::gen_locks(a, out); return; }
     if kind == "devices" { crate::scen3::gen_devices(a, out); return; }
+    if kind == "bound" { gen_bound(a, out, 1, a.get_u64("reps", if a.thorough() { 10 } else { 1 })); return; }
     if kind == "edge" { gen_edge(a, out, 1, a.get_u64("stride", if a.thorough() { 1 } else { 3 }) as u16); return; }
     let scale = if a.thorough() { 12 } else { 1 };
     let n = |k: &str, d: u64| a.get_u64(k, d * scale);
@@ -608,5 +736,6 @@ pub fn emit_machine(a: &Args, out: &mut Out) {
     if kind == "all" || kind == "rand" { let c = n("nrand", 120); gen_rand(a, out, run0, c, strict); run0 += c; }
     if kind == "all" || kind == "prog" { let c = n("nprog", 32); gen_prog(a, out, run0, c, strict, 400); run0 += c; }
     if kind == "all" || kind == "int"  { let c = n("nint", 24); gen_int(a, out, run0, c, 300); run0 += c; }
-    if kind == "all" || kind == "full" { let c = n("nfull", 4); gen_full(a, out, run0, c); }
+    if kind == "all" || kind == "full" { let c = n("nfull", 4); gen_full(a, out, run0, c); run0 += c; }
+    if kind == "all" { gen_bound(a, out, run0, if a.thorough() { 8 } else { 1 }); }
 }
